@@ -340,3 +340,26 @@ Proof.
   - intros p w Hp. destruct (uperm_support _ _ _ Hp) as [Hlen _].
     rewrite nth_apply_perm by lia. reflexivity.
 Qed.
+
+(* the three facts about the uniform shuffle, together *)
+Theorem uperm_ideal m :
+  (total (uperm m) == 1)%Q /\
+  (forall p w, In (p, w) (uperm m) ->
+     length p = m /\ is_perm p = true /\ (forall x, In x p -> (x < m)%nat) /\ (0 <= w)%Q) /\
+  forall (h : nat -> Q) j, (j < m)%nat ->
+    (expect (uperm m) (fun p => h (nth j p 0%nat))
+     == 1 / inject_Z (Z.of_nat m) * qsumf h (seq 0 m))%Q.
+Proof.
+  split; [exact (uperm_total m)|]. split; [exact (uperm_support m)|].
+  intros h j. exact (uperm_position h m j).
+Qed.
+
+Lemma total_red_eq {X} (D : dist X) : (total_red D == total D)%Q.
+Proof.
+  unfold total_red, total.
+  assert (H : forall acc, (fold_left (fun a e => Qred (a + snd e)) D acc == acc + expect D (fun _ => 1))%Q).
+  { induction D as [|[x w] D IH]; intros acc; cbn [fold_left snd].
+    - rewrite expect_nil. ring.
+    - rewrite IH, expect_cons, Qred_correct. ring. }
+  rewrite H. ring.
+Qed.
